@@ -175,8 +175,11 @@ func main() {
 	// thorough: positive controls (seeded mutants of the checker's own rules)
 	selfTotal, selfDetected := 0, 0
 	var selfMiss []string
+	benignTotal, benignSilent := 0, 0
+	var benignAlarm []string
 	if *tier == "thorough" && fatal == "" && !*noEvidence {
 		selfTotal, selfDetected, selfMiss = runMutants(*verif, *repo, prop.ID)
+		benignTotal, benignSilent, benignAlarm = runBenign(*verif, *repo, prop.ID)
 	}
 
 	exit := 0
@@ -222,6 +225,14 @@ func main() {
 			os.WriteFile(path, []byte(m+"\n"), 0o644)
 		}
 		fmt.Printf("VIOLATION property=%s replay=%s\n  VACUITY %s\n", prop.ID, path, m)
+	}
+	for i, m := range benignAlarm {
+		exit = 1
+		path := filepath.Join(replayDir, fmt.Sprintf("%s-benign-%d.txt", prop.ID, i+1))
+		if !*noEvidence {
+			os.WriteFile(path, []byte(m+"\n"), 0o644)
+		}
+		fmt.Printf("VIOLATION property=%s replay=%s\n  FALSE-ALARM-ON-BENIGN-VARIANT %s\n", prop.ID, path, m)
 	}
 	for i, m := range selfMiss {
 		exit = 1
@@ -306,6 +317,8 @@ func main() {
 			"known_findings":      knownList,
 			"selftest_total":      selfTotal,
 			"selftest_detected":   selfDetected,
+			"benign_variants":     benignTotal,
+			"benign_silent":       benignSilent,
 			"notes":               merged.Notes,
 			"exhaustive":          false,
 		},
@@ -315,7 +328,7 @@ func main() {
 			"the check decides the listed structural clauses (necessary conditions), not the behavioural statement itself",
 		}, prop.Assumptions...),
 		"wall_s":     time.Since(start).Seconds(),
-		"violations": len(merged.Violations) + len(merged.CountFail) + len(selfMiss),
+		"violations": len(merged.Violations) + len(merged.CountFail) + len(selfMiss) + len(benignAlarm),
 	}
 	if fatal != "" {
 		ev["violations"] = 1
@@ -396,6 +409,81 @@ func runMutants(verif, repo, prop string) (total, detected int, miss []string) {
 			detected++
 		} else {
 			miss = append(miss, r.name+": "+r.msg)
+		}
+	}
+	return
+}
+
+// runBenign applies each behaviour-preserving variant /verif/benign/<props>__<name>.patch whose property list names
+// prop to a scratch copy and expects the quick check of that property to stay silent (exit 0).
+func runBenign(verif, repo, prop string) (total, silent int, alarms []string) {
+	patches, _ := filepath.Glob(filepath.Join(verif, "benign", "*.patch"))
+	sort.Strings(patches)
+	exe, _ := os.Executable()
+	type res struct {
+		name string
+		ok   bool
+		msg  string
+	}
+	var sel []string
+	for _, pth := range patches {
+		props := strings.Split(strings.SplitN(filepath.Base(pth), "__", 2)[0], "+")
+		for _, p := range props {
+			if p == prop {
+				sel = append(sel, pth)
+			}
+		}
+	}
+	results := make([]res, len(sel))
+	sem := make(chan struct{}, 6)
+	var wg sync.WaitGroup
+	for i, pth := range sel {
+		wg.Add(1)
+		go func(i int, pth string) {
+			defer wg.Done()
+			sem <- struct{}{}
+			defer func() { <-sem }()
+			name := filepath.Base(pth)
+			tmp, err := os.MkdirTemp("", "intotocheck.")
+			if err != nil {
+				results[i] = res{name, false, err.Error()}
+				return
+			}
+			defer os.RemoveAll(tmp)
+			dst := filepath.Join(tmp, "repo")
+			if out, err := exec.Command("rsync", "-a", "--exclude", ".git", repo+"/", dst+"/").CombinedOutput(); err != nil {
+				results[i] = res{name, false, "copy failed: " + string(out)}
+				return
+			}
+			cmd := exec.Command("patch", "-p1", "-s", "-i", pth)
+			cmd.Dir = dst
+			if out, err := cmd.CombinedOutput(); err != nil {
+				// a variant that no longer applies says nothing about the checker
+				results[i] = res{name, true, "variant does not apply any more (skipped): " + strings.TrimSpace(string(out))}
+				return
+			}
+			out, err := exec.Command(exe, "-property", prop, "-tier", "quick", "-repo", dst, "-verif", verif, "-no-evidence").CombinedOutput()
+			if err == nil {
+				results[i] = res{name, true, ""}
+				return
+			}
+			var first string
+			for _, ln := range strings.Split(string(out), "\n") {
+				if strings.HasPrefix(ln, "  ") {
+					first = strings.TrimSpace(ln)
+					break
+				}
+			}
+			results[i] = res{name, false, "check is not silent on a behaviour-preserving variant: " + first}
+		}(i, pth)
+	}
+	wg.Wait()
+	for _, r := range results {
+		total++
+		if r.ok {
+			silent++
+		} else {
+			alarms = append(alarms, r.name+": "+r.msg)
 		}
 	}
 	return
